@@ -53,6 +53,14 @@ CHECKS = [
      "technique": "bounded exhaustive enumeration of a UBI table and of all NaN masks of small maps against algebraic identities",
      "text": "12 cells x 8 rotations x 5 strains = 480 UBIs through grain, unitcell, indexing.ubito*, tensor_map guvectorised functions, TensorMap properties and point_by_point helpers against numpy identities (orthogonality, triangularity, U.B = inv(UBI), B^T.B = inv(mt), Rodrigues reconstruction, build-then-decompose); all 2^n NaN masks of maps with n <= 4 (6) voxels in several shapes x 3 fillings: masked voxels NaN, the others bit-identical to the unmasked map; the whole table as (n,), (1,1,n), (1,n/8,8), (2,n/16,8) maps voxel by voxel against grain.",
      "note": "Rodrigues convention: xfab's vector describes U^T; either convention accepted; 180 degree rotation skipped for Rod (singular)"},
+    {"id": "C06", "engine": "E1-explore", "level": "exploration",
+     "technique": "bounded exhaustive enumeration of all peak multisets over a 24-letter alphabet x UBIs x tolerances (and all label assignments) against a numpy/exact-integer re-expression of the definition",
+     "text": "5 UBIs x 5 tolerances x all 20 475 (thorough 118 755) sub-multisets of size 0..4 (0..5) of a 24-peak alphabet (coplanar, collinear, |h|=1000, offsets up to exactly 0.5) through score, score_and_refine, indexing.calc_drlv2 and indexing.refine; refine_assigned over all 2^7 (2^9) label assignments; 10^5-peak structured lists. Count, mean squared error and refined matrix compared; exactly singular H (decided in integer arithmetic) must leave the matrix unchanged.",
+     "note": "margin guard: squared error within 1e-9 of tol^2, rounding ties, det(H)=0 with entries beyond 2^53, cond(H) > 1e8 are borderline; matrix tolerance scales with cond(H).cond(UB)"},
+    {"id": "C10", "engine": "E1-explore", "level": "exploration",
+     "technique": "bounded exhaustive enumeration of reference cells x reference orientations x stretches x rotations x m against the closed-form Seth-Hill tensors",
+     "text": "5 cells x 4 reference forms (cell, or another grain in 3 orientations) x 9 (14) stretches up to 10 % x 6 rotations x 7 values of m: grain-frame strain = (S^2m - I)/2m (log for m=0) independent of R, sample-frame strain = R E R^T, symmetric, exactly zero for S = I, m-dependence second order, e6 ordering; guvectorised Biot strains and TensorMap.eps_sample/eps_crystal (both access orders) voxel by voxel incl. NaN voxels.",
+     "note": "the TensorMap rotation path (eps_sample from a cached eps_crystal) is only required to agree to second order in the strain"},
     # --- END CHECKS
 ]
 
